@@ -364,6 +364,18 @@ pub fn gen_tree(
                 world.put_file(&p, screen.gen_text(rng).into_bytes(), Fault::None);
                 info.eligible.push(p);
             }
+            4 | 5 => {
+                // a very tall file: findings beyond line 65 536
+                let t = screen.gen_text(rng);
+                if let Some(pos) = t.find('\n') {
+                    let tall = format!("{}{}{}", &t[..pos + 1], "\n".repeat(rng.range(65_600, 70_000)), &t[pos + 1..]);
+                    let p = join(root, "tall.sol");
+                    if !world.nodes.contains_key(&p) && screen.ok(&tall) {
+                        world.put_file(&p, tall.into_bytes(), Fault::None);
+                        info.eligible.push(p);
+                    }
+                }
+            }
             2 | 3 => {
                 // a large eligible file (0.3 - 1.5 MB): comment padding around real findings
                 let mut t = screen.gen_text(rng);
